@@ -95,6 +95,8 @@ def corr(c, tier, rng):
             exp_pub = -math.inf if math.isnan(priv) else priv
             if not vlib.close(info["public"], exp_pub, **TOL):
                 c.mismatch("public-log_prob-vs-private", op=line, impl_public=info["public"], impl_private=priv)
+    # ---- the layer stack of every premade flow is a Scan: C08.scan_eq_chain on the real side
+    c01.scan_correspondence(c, tier, rng)
     # ---- factories: orientation by structural introspection
     for name, mk in factories():
         for invert in (True, False):
@@ -168,16 +170,19 @@ def search(hints, tier, rng):
             for cd in (None, 2):
                 fl = perturb(mk(jr.PRNGKey(rng.randrange(1000)), cd, invert), rng)
                 wit += identities_violations(fl, f"{name}|invert={invert}|cond={cd}", rng, cd)
-    # hand-built nested transformed distributions
-    for i in range(10 if tier == "quick" else 60):
-        t1, t2 = cond_tree(rng, 1), cond_tree(rng, 1)
-        d = Transformed(Transformed(StandardNormal(), t1[1]), t2[1])
+    # hand-built nested transformed distributions, 2 and 3 levels (merge_transforms must not change any method)
+    for i in range(20 if tier == "quick" else 100):
+        ts = [cond_tree(rng, 1) for _ in range(rng.choice([2, 3, 3]))]
+        t1, t2 = ts[0], ts[1]
+        d = StandardNormal()
+        for t in ts:
+            d = Transformed(d, t[1])
         cdim = 0
-        desc = f"nested:{t1[4]}|{t2[4]}"
+        desc = "nested:" + "|".join(t[4] for t in ts)
         # scalar distributions: reuse the identity checker with cond as scalar
         try:
             key = jr.PRNGKey(i)
-            cond = jnp.asarray(rng.uniform(-1, 1)) if (t1[3] or t2[3]) else None
+            cond = jnp.asarray(rng.uniform(-1, 1)) if any(t[3] for t in ts) else None
             s, lp = d.sample_and_log_prob(key, condition=cond)
             lp_at = float(d.log_prob(s, cond))
             if np.isfinite(lp_at) and abs(float(lp) - lp_at) > 1e-6 * (1 + abs(lp_at)) * 100:
@@ -187,6 +192,9 @@ def search(hints, tier, rng):
             a, b = float(d.log_prob(x, cond)), float(m.log_prob(x, cond))
             if not vlib.close(a, b, rtol=1e-8, atol=1e-8):
                 wit.append(dict(key=f"{desc}|merge", desc=desc, law="merge_transforms preserves log_prob", got=b, want=a))
+            sm = m.sample(key, condition=cond)
+            if np.isfinite(float(s)) and not vlib.close(float(sm), float(s), rtol=1e-8, atol=1e-8):
+                wit.append(dict(key=f"{desc}|merge-sample", desc=desc, law="merge_transforms preserves sample(key)", got=float(sm), want=float(s)))
         except Exception as ex:
             wit.append(dict(key=f"{desc}|exception", desc=desc, exc=repr(ex)[:200]))
         if len(wit) >= 5:
